@@ -91,16 +91,16 @@ report the list of refactorings, the suite result and both digests.
 '''
 
 TARGETS = {
-    'B41': 'pyx12/x12file.py: X12Base._parse_segment, X12Reader._parse_segment, X12Base._int, X12Reader.cleanup, the _isa_error/_gs_error/_st_error/_seg_error family.  Structural refactorings of a different kind than "extract helper": per-segment handler methods picked from a dict, merged trailer checks driven by a small table, early returns, locals for repeated get_value calls',
-    'B42': 'pyx12/error_997.py and pyx12/error_999.py: visit_gs_post, visit_st_post, visit_seg, visit_ele, visit_root_pre/post, __get_gs_errors/__get_st_errors.  Structural refactorings: a shared private helper that builds the AK9 / AK5/IK5 segment, code tables as dicts or frozensets, loops to comprehensions, early returns',
-    'B43': 'pyx12/map_walker.py: walk_tree.walk, _is_loop_match, _goto_seg_match, _seg_not_found_error, _pop_to_parent_loop, pop_to_parent_loop, is_first_seg_match2.  Structural refactorings: split walk into phases (search current loop / pop and retry), replace while-True/break by loop conditions, early returns, locals',
-    'B44': 'pyx12/validation.py (IsValidDataType, is_valid_date, is_valid_time, the regex constants) and pyx12/dataele.py.  Structural refactorings: dispatch dict keyed by data type, extracted per-type predicates, re.fullmatch-equivalent rewrites ONLY where exactly equivalent, early returns',
-    'B45': 'pyx12/x12n_document.py (x12n_document, _reset_counter_to_isa_counts, _reset_counter_to_gs_counts).  Structural refactorings: extract the per-segment body of the main loop and the map-switching blocks (ISA/GS/ST/BHT) into private functions, sink objects gathered in a list, early continue guards',
-    'B46': 'pyx12/rawx12file.py (RawX12File.__init__, __iter__, the header parsing) and pyx12/x12file.py X12Reader.__init__/__iter__, X12Base.__init__.  Structural refactorings: extracted header parser, buffer handling through a local, loop restructuring that reads exactly the same chunks, early returns',
-    'B47': 'pyx12/nodeCounter.py and pyx12/path.py (X12Path.__init__, format, is_match, is_child_path, empty, __eq__/__hash__).  Structural refactorings: comprehension/loop conversions, regex groups through named locals, early returns, dict.get / setdefault where exactly equivalent',
-    'B48': 'pyx12/x12context.py: X12DataNode, X12LoopDataNode, X12SegmentDataNode (get_value, set_value, exists, select, add_segment, add_loop, add_node, delete, delete_segment, delete_node, copy, _get_insert_idx, _cleanup, iterate_segments, iterate_loop_segments).  Structural refactorings: shared private helpers for child insertion and lookup, generator/comprehension conversions, early returns',
-    'B49': 'pyx12/map_if.py: segment_if.is_valid, element_if.is_valid, element_if._is_valid_code, element_if._error, element_if._valid_code, composite_if.is_valid, loop_if.get_max_repeat/get_cur_count and the usage checks.  Structural refactorings: guard clauses, extracted predicates, reordered independent checks ONLY where no report order changes, locals for repeated expressions',
-    'B50': 'pyx12/xmlx12_simple.py, pyx12/error_handler.py class err_handler (add_isa_loop ... add_ele, seg_error, ele_error, close_*_loop, get_*), and pyx12/errh_xml.py.  Structural refactorings: table-driven dispatch, shared helpers, early returns, loop/comprehension conversions',
+    'B51': 'pyx12/error_handler.py: class err_iter (__next__, first, next), the navigation methods of err_node and its subclasses (get_first_child, get_next_sibling, get_parent, is_closed, _get_last_child), get_error_list of err_node/err_isa/err_gs/err_st, err_seg and err_ele.  Structural refactorings: early returns, extracted private helpers, loops to comprehensions/any/next, membership tests for or-chains, renamed locals',
+    'B52': 'pyx12/x12file.py: class X12Writer (Write, Close, _close_loop, _popToLoop, _close_iea, _close_ge, _close_se, _write_segment, _write_isa_segment, _get_trailer_segment).  Structural refactorings: while/if restructuring of _popToLoop, a dict from loop type to closing method or to (trailer id, counter attribute), early returns, locals, str.format / f-strings',
+    'B53': 'pyx12/scripts/x12valid.py, pyx12/scripts/x12html.py and pyx12/scripts/x12xml.py: the main() functions.  Structural refactorings: extracted per-file function, extracted target-name helper, context managers for the files where exactly equivalent, early continue guards, argument parser set-up in a helper',
+    'B54': 'pyx12/map_if.py: the lookup methods map_if.getnodebypath/getnodebypath2, loop_if.getnodebypath/getnodebypath2/childIterator/get_child_node_by_idx/get_first_node/get_first_seg, segment_if.getnodebypath2/get_child_node_by_idx/get_child_node_by_ordinal, is_match/is_match_qual.  Structural refactorings: shared iteration helper over pos_map, early returns, parsed path parts in locals, comprehension/next() for search loops',
+    'B55': 'pyx12/x12n_document.py function x12n_document: a MODERATE tidy-up that keeps one main function containing the segment loop - at most four extractions of private module-level functions (e.g. the 997/999 generation, the map lookup for GS, the HTML error-node collection), early continue guards, locals for repeated calls, str.format for %-formatting, if/elif reordering where independent',
+    'B56': 'pyx12/x12context.py: class X12ContextReader (__init__, iter_segments, _add_segment, _get_segment_node?, _reset_counter_to_isa_counts, _reset_counter_to_gs_counts, register_error_callback) second pass.  Structural refactorings: extract the map-selection part of iter_segments into a private method returning the new map node, early returns, locals, merged duplicated blocks',
+    'B57': 'pyx12/error_html.py (second pass: header, footer, gen_seg, gen_info, loop, _seg_str, _wrap_ele_error, seg_str, escape_html_chars) and pyx12/x12xml_simple.py.  Structural refactorings: one private method that writes an error line, list + join for repeated writes where the written text is identical, early continue, comprehension/loop conversions',
+    'B58': 'pyx12/segment.py third pass: Element, Composite and Segment - format, __repr__, is_empty, __len__, get_value, get, set, append, copy/__copy__, __eq__, is_seg_id_valid, values_iterator.  Structural refactorings: rstrip-style trimming ONLY where exactly equivalent, any()/all(), enumerate, early returns, shared private helpers',
+    'B59': 'pyx12/map_walker.py: walk_tree._check_seg_usage, _check_loop_usage, _flush_mandatory_segs, forceWalkCounterToLoopStart, getCountState/setCountState, __init__, and pyx12/nodeCounter.py.  Structural refactorings: a shared private helper for the "exceeded max count" report, early returns, locals for repeated counter lookups, str.format, comprehension/loop conversions',
+    'B60': 'pyx12/error_997.py and pyx12/error_999.py third pass: visit_root_pre, visit_gs_pre, visit_st_pre, visit_st_post, __get_isa_errors/__get_st_errors, _write.  Structural refactorings: a table of (position, source element) for the ISA/GS construction, shared base-class style helpers inside each file, loops for repeated appends, locals, early returns',
 }
 
 
